@@ -10,7 +10,7 @@
 #include <string.h>
 
 static PyMemAllocatorEx orig;
-static uint64_t state = 1, word = 0;
+static uint64_t state = 1, seed0 = 1, word = 0;
 static int mode = 0, installed = 0, active = 0;
 static uint64_t n_malloc = 0, n_free = 0, n_bytes = 0;
 
@@ -20,7 +20,10 @@ static void fill(void *p, size_t n) {
     if (!active || !p) return;
     uint64_t *q = (uint64_t *)p;
     size_t k = n / 8;
-    if (mode) { for (size_t i = 0; i < k; i++) q[i] = nxt(); }
+    if (mode) {   /* stream re-seeded per block from (seed, block size): the contents of a block do not depend on how many
+                     unrelated allocations the interpreter made before, so a run is repeatable */
+        state = seed0 ^ ((uint64_t)n * 0x9E3779B97F4A7C15ULL); if (!state) state = 1;
+        for (size_t i = 0; i < k; i++) q[i] = nxt(); }
     else      { for (size_t i = 0; i < k; i++) q[i] = word; }
     memset((char *)p + 8 * k, (int)(word & 0xff), n % 8);
     n_bytes += n;
@@ -36,13 +39,13 @@ static void *p_realloc(void *c, void *o, size_t n) {
 static void p_free(void *c, void *p) { if (p) { n_free++; fill(p, malloc_usable_size(p)); } orig.free(orig.ctx, p); }
 
 void poison_install(uint64_t seed, uint64_t w, int m) {
-    state = seed ? seed : 0x9E3779B97F4A7C15ULL; word = w; mode = m; active = 1;
+    state = seed ? seed : 0x9E3779B97F4A7C15ULL; seed0 = state; word = w; mode = m; active = 1;
     if (installed) return;
     installed = 1;
     PyMem_GetAllocator(PYMEM_DOMAIN_RAW, &orig);
     PyMemAllocatorEx a = {NULL, p_malloc, p_calloc, p_realloc, p_free};
     PyMem_SetAllocator(PYMEM_DOMAIN_RAW, &a);
 }
-void poison_set(uint64_t seed, uint64_t w, int m) { state = seed ? seed : 0x9E3779B97F4A7C15ULL; word = w; mode = m; active = 1; }
+void poison_set(uint64_t seed, uint64_t w, int m) { state = seed ? seed : 0x9E3779B97F4A7C15ULL; seed0 = state; word = w; mode = m; active = 1; }
 void poison_pause(void) { active = 0; }
 uint64_t poison_stat(int which) { return which == 0 ? n_malloc : which == 1 ? n_free : n_bytes; }
